@@ -120,3 +120,26 @@ func (e *Engine) checkSound(tx *Tx, pre *State) {
 		}
 	}
 }
+
+// Simulate runs a transaction in baseapp's simulation mode (executed on a branch that is discarded).
+// It must leave no trace: committed state identical, and - through the model - no effect on later outcomes.
+func (e *Engine) Simulate(tx Tx) {
+	bz, err := e.C.BuildTx(tx.Msgs...)
+	if err != nil {
+		return
+	}
+	before := chain.HashDump(e.C.DumpAll())
+	e.C.Store.Phase = "simulate"
+	e.Rc.LogCall("SIMULATE %s", trunc(describeTx(&tx), 2000))
+	_, _, _ = e.C.App.Simulate(bz)
+	e.Rc.LogCall("DONE")
+	e.C.Store.Phase = "query"
+	e.C.Store.Reset()
+	e.C.Deps.Reset()
+	e.Rc.Cov.Assert("simulate.leaves-no-trace")
+	e.Rc.Cov.Cell("env_actions", "simulate")
+	if chain.HashDump(e.C.DumpAll()) != before {
+		e.viol([]string{"C15", "C18"}, "simulate", "simulate-changed-state", "a simulated transaction changed committed state", e.caseOf(&tx, ""))
+	}
+	e.history = append(e.history, "<simulate "+shapeOf(tx.Msgs)+">")
+}
